@@ -46,6 +46,7 @@ def specFloor (n : Int) (r : String) : Option String :=
 def handle (s : S) : List String → S × String
   | ["overlap", id, cap, oid, ocap] =>
     (s, s!"specviol buffer {id} (capacity {cap}) shares memory with buffer {oid} (capacity {ocap}) while both are held: the capacity of a buffer is not its holder's alone")
+  | "crash" :: rest => (s, "diff harness crashed: " ++ " ".intercalate rest)
   | ["conc", g, gets, double, short] =>
     (s, if short != "0" then (if g == "1" then s!"specviol after the channel recycled a batch the pool returned a buffer smaller than requested ({short} of {gets} Gets)"
          else s!"specviol a concurrent Get returned a buffer smaller than requested ({short} times in {gets} Gets of mixed size classes)") else
